@@ -746,7 +746,7 @@ Proof.
   intros HSI. pose proof HSI as [Hs [Hc Ht]].
   assert (HSI0 : SI (set_conf s (tmo s))) by (apply si_set_conf; assumption).
   unfold mon0. cbn [m_tmo m_conf mof]. rewrite mof_set_conf.
-  destruct o as [t|t c|t|g|g k|md k n| | |]; cbn [step].
+  destruct o as [t|t c|t|g|g k|md k n|md k| | |]; cbn [step].
   - destruct (conf s || bad_tmo t) eqn:E.
     + cbn. split; [reflexivity|]. split; [exact HSI0|exists a; reflexivity].
     + cbn. apply orb_false_iff in E. destruct E as [_ E]. unfold bad_tmo in E.
@@ -786,6 +786,7 @@ Proof.
            rewrite (Hd2 Hn), Hc2, Hc1. reflexivity.
       * cbn [m_feat mof]. rewrite Hf. cbn. split; [reflexivity|]. split;
           [split; [exact Hs0|split; [unfold CtlInv; rewrite Hh; exact Hc0|exact Ht0]]|exists a; reflexivity].
+  - cbn. split; [reflexivity|]. split; [exact HSI0|exists a; reflexivity].
   - cbn. split; [reflexivity|]. split; [apply si_set_subs; exact HSI0|exists a; reflexivity].
   - cbn. split; [reflexivity|]. split; [apply si_set_subs; exact HSI0|exists a; reflexivity].
   - cbn. replace (eqb_oN (data s) (data s)) with true by (destruct (data s); cbn; [rewrite N.eqb_refl|]; reflexivity).
@@ -882,6 +883,7 @@ Proof.
   - destruct (Nat.leb 2 k && Nat.leb k max_run); [apply run_ticks_no_panic; exact HSI0|reflexivity].
   - unfold step_burst. destruct (burst_ok k n); [|reflexivity].
     destruct (hold (set_conf s (tmo s))); [reflexivity|]. destruct (feature (set_conf s (tmo s))); reflexivity.
+  - reflexivity.
   - reflexivity.
   - reflexivity.
   - reflexivity.
